@@ -33,7 +33,7 @@ func c01Roots(p *core.Prog) []*ssa.Function {
 	return roots
 }
 
-var boundsPkgs = []string{"pkg/sql/tokenizer", "pkg/sql/parser", "pkg/sql/ast", "pkg/gosqlx", "pkg/sql/security", "pkg/errors", "pkg/sql/keywords", "pkg/sql/token", "pkg/models", "pkg/metrics"}
+var boundsPkgs = []string{"pkg/sql/tokenizer", "pkg/sql/parser", "pkg/sql/ast", "pkg/gosqlx", "pkg/sql/security", "pkg/errors", "pkg/sql/keywords", "pkg/sql/token", "pkg/models", "pkg/metrics", "pkg/linter", "pkg/linter/rules/whitespace", "pkg/linter/rules/keywords", "pkg/linter/rules/style"}
 
 func c01Panics(c *Ctx) {
 	r, p := c.R, c.P
